@@ -1,11 +1,15 @@
 (* C11 — JSON and protobuf transports carry Data exactly.
    This file holds ONLY the statements of the property theorems, each closed by `exact <lemma>`, and
    `Print Assumptions` beneath.  Models: Model/Json.v (serialization/jsonstreamer.go, jsontodata.go),
-   Model/Pb.v (proto/convert.go, types/basiccollector.go). *)
+   Model/Pb.v (proto/convert.go, types/basiccollector.go).  An "event tree" `ev` is one top-level call on a
+   px.ValueConsumer with the calls its doer makes nested inside (Add / AddRef / AddArray / AddHash). *)
 From Coq Require Import ZArith NArith Bool List.
-From PcoreV Require Import Model.Base Model.Json Model.Pb Proofs.JsonProofs.
+From PcoreV Require Import Model.Base Model.Json Model.Pb Proofs.JsonProofs Proofs.PbProofs.
 Import ListNotations.
 Open Scope Z_scope.
+
+(* ============================================================================================== *)
+(* JSON                                                                                             *)
 
 (* The five-state machine of jsonStreamer (delimit + the state AddArray/AddHash overwrite inside the doer)
    writes, for EVERY event tree whose floats are finite and from every state, exactly the canonical
@@ -15,13 +19,27 @@ Theorem C11_stream_is_render :
 Proof. exact stream_top_render. Qed.
 Print Assumptions C11_stream_is_render.
 
+(* The writer is total on ALL event trees (ill-formed ones included): it never hits a runtime fault and
+   reports an error exactly when some float is NaN or ±Inf (which no JSON text can carry). *)
+Theorem C11_json_writer_total :
+  forall e, stream_top e = if floats_finite e then Ok (render e) else Err.
+Proof. exact stream_top_total. Qed.
+Print Assumptions C11_json_writer_total.
+
 (* json_always_valid: what the streamer writes for any well-formed event tree (even hashes with string
-   keys, finite floats) is accepted by the RFC 8259 recogniser. *)
+   keys, finite floats — what a Serializer hands to a consumer without CanDoComplexKeys) is accepted by
+   the RFC 8259 recogniser.  No guard: holds for hashes keyed `__pref` too. *)
 Theorem C11_json_always_valid :
   forall e, json_wf_all e = true ->
   exists toks, stream_top e = Ok toks /\ json_valid toks = true.
 Proof. exact json_always_valid. Qed.
 Print Assumptions C11_json_always_valid.
+
+(* The full round-trip statement of the property, unguarded.  It is FALSE of the code (open finding
+   json-pref-first-key, see C11_pref_first_key_refuted); the theorem below it carries the guard. *)
+Definition C11_statement : Prop :=
+  forall e, json_wf_all e = true ->
+  exists toks, stream_top e = Ok toks /\ read toks = Ok [json_image e].
 
 (* json_events_roundtrip: reading it back delivers the same events: same nesting, same scalar kinds (floats
    stay floats, int64 exact), same reference indices; strings keep every Unicode character (json_image maps a
@@ -32,3 +50,206 @@ Theorem C11_json_events_roundtrip :
   exists toks, stream_top e = Ok toks /\ read toks = Ok [json_image e].
 Proof. exact json_events_roundtrip. Qed.
 Print Assumptions C11_json_events_roundtrip.
+
+(* ... and for Data proper (strings valid UTF-8, no Binary, nothing foreign) the events come back EXACTLY. *)
+Theorem C11_json_events_roundtrip_exact :
+  forall e, json_wf e = true -> data_exact e = true ->
+  exists toks, stream_top e = Ok toks /\ json_valid toks = true /\ read toks = Ok [e].
+Proof. exact json_events_roundtrip_exact. Qed.
+Print Assumptions C11_json_events_roundtrip_exact.
+
+(* "strings keep every Unicode character": a valid UTF-8 string is its own image; whatever is read back is
+   valid UTF-8 (so a second trip is exact). *)
+Theorem C11_strings_keep_unicode :
+  forall s, utf8_valid s = true -> utf8_coerce s = s.
+Proof. exact utf8_valid_coerce. Qed.
+Print Assumptions C11_strings_keep_unicode.
+
+Theorem C11_image_is_exact :
+  forall e, data_exact (json_image e) = true.
+Proof. exact json_image_is_exact. Qed.
+Print Assumptions C11_image_is_exact.
+
+(* With back-references: the far side's collector receives the very calls the writer received, so the value
+   it builds (references resolved against the same positions) is the value built on the near side. *)
+Theorem C11_json_collect_roundtrip :
+  forall e v, json_wf e = true -> data_exact e = true -> collect e = Ok v ->
+  exists toks, stream_top e = Ok toks /\ exists e', read toks = Ok [e'] /\ collect e' = Ok v.
+Proof. exact json_collect_roundtrip. Qed.
+Print Assumptions C11_json_collect_roundtrip.
+
+(* The reader's model terminates within the fuel `read` gives it on EVERY token list, valid JSON or not
+   (so `OutOfFuel` never hides a behaviour of JsonToData from the theorems or from the correspondence). *)
+Theorem C11_reader_total :
+  forall toks, read toks <> OutOfFuel.
+Proof. exact read_never_out_of_fuel. Qed.
+Print Assumptions C11_reader_total.
+
+(* Full strength with back-references and arbitrary byte strings: for ANY well-formed tree the value the far
+   side's collector rebuilds is the image (vimage: invalid bytes -> U+FFFD, non-Data scalar -> undef) of what the
+   near side's collector builds from the same calls - including the same fault on a dangling reference. *)
+Theorem C11_json_collect_image :
+  forall e, json_wf e = true ->
+  exists toks, stream_top e = Ok toks /\ exists e', read toks = Ok [e'] /\ collect e' = res_map vimage (collect e).
+Proof. exact json_collect_image. Qed.
+Print Assumptions C11_json_collect_image.
+
+(* End to end for a value: its calls -> NewJsonStreamer -> JsonToData -> BasicCollector = the value. *)
+Theorem C11_json_data_roundtrip :
+  forall v, json_wf (events_of v) = true -> data_exact (events_of v) = true ->
+  exists toks, stream_top (events_of v) = Ok toks /\ json_valid toks = true /\
+               exists e', read toks = Ok [e'] /\ collect e' = Ok v.
+Proof. exact json_data_roundtrip. Qed.
+Print Assumptions C11_json_data_roundtrip.
+
+(* ---- the open finding: the guard of C11_json_events_roundtrip cannot be dropped ---- *)
+
+(* a well-formed user hash {"__pref":1} is written as valid JSON and read back as AddRef(1) *)
+Theorem C11_pref_first_key_refuted :
+  exists e, json_wf_all e = true /\
+            exists toks, stream_top e = Ok toks /\ json_valid toks = true /\ read toks <> Ok [json_image e].
+Proof. exact pref_first_key_refuted. Qed.
+Print Assumptions C11_pref_first_key_refuted.
+
+Theorem C11_statement_refuted : ~ C11_statement.
+Proof. exact json_roundtrip_statement_refuted. Qed.
+Print Assumptions C11_statement_refuted.
+
+(* {"__pref":"x"} and {"__pref":1,"b":2} make JsonToData fail *)
+Theorem C11_pref_read_fails :
+  let e1 := pref_hash (EAdd (SStr [120%N])) [] in
+  let e2 := pref_hash (EAdd (SInt 1)) [EAdd (SStr [98%N]); EAdd (SInt 2)] in
+  json_wf_all e1 = true /\ stream_top e1 = Ok (render e1) /\ read (render e1) = Err /\
+  json_wf_all e2 = true /\ stream_top e2 = Ok (render e2) /\ read (render e2) = Err.
+Proof. exact pref_read_fails. Qed.
+Print Assumptions C11_pref_read_fails.
+
+(* ---- the two repaired defects: the same statements are false of the PINNED writer ---- *)
+
+(* before fix 1ed663c: [1,[],3] was written `[1,[]3]` *)
+Theorem C11_json_invalid_refuted_pinned :
+  forall fit, exists e, json_wf_all e = true /\
+              exists toks, stream_top_pinned fit e = Ok toks /\ json_valid toks = false.
+Proof. exact json_invalid_refuted_pinned. Qed.
+Print Assumptions C11_json_invalid_refuted_pinned.
+
+(* before fix 1f092e9: the float 1.0 was written `1` and read back as the Integer 1 *)
+Theorem C11_float_kind_refuted_pinned :
+  exists e, json_wf_all e = true /\
+            exists toks, stream_top_pinned (fun _ => 1) e = Ok toks /\ read toks = Ok [EAdd (SInt 1)] /\
+                         json_image e <> EAdd (SInt 1).
+Proof. exact float_kind_refuted_pinned. Qed.
+Print Assumptions C11_float_kind_refuted_pinned.
+
+(* ============================================================================================== *)
+(* protobuf                                                                                         *)
+
+(* pb_roundtrip: FromPBData (ToPBData v) = v for every Data value (any nesting, any keys). *)
+Theorem C11_pb_roundtrip :
+  forall v, is_data v = true -> from_pb (to_pb v) = Ok v.
+Proof. exact pb_roundtrip. Qed.
+Print Assumptions C11_pb_roundtrip.
+
+(* pb_stream_roundtrip: for EVERY event tree whose hashes have an even number of children (references,
+   binaries, complex keys included) the protoConsumer builds a message from which ConsumePBData replays the
+   same events (a scalar that is no pcore Data/Binary travels as undef: pb_image). *)
+Theorem C11_pb_stream_roundtrip :
+  forall e, even_hashes e = true -> exists d, pc_run e = Ok d /\ consume_pb d = Ok (pb_image e).
+Proof. exact pb_stream_roundtrip. Qed.
+Print Assumptions C11_pb_stream_roundtrip.
+
+Theorem C11_pb_stream_roundtrip_exact :
+  forall e, even_hashes e = true -> no_other e = true -> exists d, pc_run e = Ok d /\ consume_pb d = Ok e.
+Proof. exact pb_stream_roundtrip_exact. Qed.
+Print Assumptions C11_pb_stream_roundtrip_exact.
+
+(* the calls ConsumePBData makes for ToPBData v are the calls v denotes (for every v) *)
+Theorem C11_pb_value_events :
+  forall v, consume_pb (to_pb v) = Ok (pb_image (events_of v)).
+Proof. exact consume_to_pb. Qed.
+Print Assumptions C11_pb_value_events.
+
+(* Data value -> ToPBData -> ConsumePBData -> BasicCollector = the value *)
+Theorem C11_pb_data_roundtrip :
+  forall v, is_data v = true -> exists e, consume_pb (to_pb v) = Ok e /\ collect e = Ok v.
+Proof. exact pb_data_roundtrip. Qed.
+Print Assumptions C11_pb_data_roundtrip.
+
+(* Data value -> its calls -> protoConsumer -> FromPBData = the value *)
+Theorem C11_pb_consumer_roundtrip :
+  forall v, is_data v = true -> exists d, pc_run (events_of v) = Ok d /\ from_pb d = Ok v.
+Proof. exact pb_consumer_roundtrip. Qed.
+Print Assumptions C11_pb_consumer_roundtrip.
+
+(* the collector rebuilds exactly the value a reference-free tree of calls denotes *)
+Theorem C11_collect_events_of :
+  forall v, collect (events_of v) = Ok v.
+Proof. exact collect_events_of. Qed.
+Print Assumptions C11_collect_events_of.
+
+(* ============================================================================================== *)
+(* Non-vacuity: the hypotheses are satisfiable and the models compute non-trivial concrete cases.   *)
+
+(* [1, [], {"a": 2.0, "b": {}}, "é", ref 1, -2^63, []] : empty containers and a hash at non-first positions,
+   an integral float, an extreme integer, a non-ASCII string, a back-reference *)
+Definition ex_tree : ev :=
+  EArr [EAdd (SInt 1); EArr [];
+        EHash [EAdd (SStr [97%N]); EAdd (SFloat 4611686018427387904); EAdd (SStr [98%N]); EHash []];
+        EAdd (SStr [195%N; 169%N]); ERef 1; EAdd (SInt (-9223372036854775808)); EArr []].
+
+Example C11_json_nonvacuous :
+  json_wf ex_tree = true /\ data_exact ex_tree = true /\
+  stream_top ex_tree =
+    Ok [LBrack; TNum (NInt 1); Comma; LBrack; RBrack; Comma;
+        LBrace; TStr [97%N]; Colon; TNum (NFrac 4611686018427387904); Comma; TStr [98%N]; Colon; LBrace; RBrace; RBrace; Comma;
+        TStr [195%N; 169%N]; Comma; LBrace; TStr pref_key; Colon; TNum (NInt 1); RBrace; Comma;
+        TNum (NInt (-9223372036854775808)); Comma; LBrack; RBrack; RBrack] /\
+  json_valid (render ex_tree) = true /\ read (render ex_tree) = Ok [ex_tree].
+Proof. repeat split; vm_compute; reflexivity. Qed.
+
+(* a string with a byte that is not UTF-8 comes back with U+FFFD in its place; a Binary comes back as undef *)
+Example C11_json_image_nonvacuous :
+  read (render (EArr [EAdd (SStr [97%N; 255%N]); EAdd (SBin [1%N])]))
+  = Ok [EArr [EAdd (SStr [97%N; 239%N; 191%N; 189%N]); EAdd SUndef]].
+Proof. vm_compute. reflexivity. Qed.
+
+(* a non-finite float is reported, not written *)
+Example C11_json_nan_nonvacuous :
+  stream_top (EArr [EAdd (SInt 1); EAdd (SFloat 9221120237041090560)]) = Err.
+Proof. vm_compute. reflexivity. Qed.
+
+(* references are resolved by the collector: ["abc", ref 1] collects to ["abc", "abc"] *)
+Example C11_collect_ref_nonvacuous :
+  collect (EArr [EAdd (SStr [97%N; 98%N; 99%N]); ERef 1]) = Ok (VArr [VStr [97%N; 98%N; 99%N]; VStr [97%N; 98%N; 99%N]]).
+Proof. vm_compute. reflexivity. Qed.
+
+(* a reference to a string with an invalid byte: both occurrences come back coerced *)
+Example C11_collect_image_nonvacuous :
+  let e := EArr [EAdd (SStr [97%N; 255%N]); ERef 1] in
+  collect e = Ok (VArr [VStr [97%N; 255%N]; VStr [97%N; 255%N]]) /\
+  (let* evs := read (render e) in match evs with [e'] => collect e' | _ => Err end)
+  = Ok (VArr [VStr [97%N; 239%N; 191%N; 189%N]; VStr [97%N; 239%N; 191%N; 189%N]]).
+Proof. split; vm_compute; reflexivity. Qed.
+
+Definition ex_value : value :=
+  VHash [(VStr [107%N], VArr [VInt 9223372036854775807; VFloat 4607182418800017408; VUndef; VArr []]);
+         (VInt 3, VHash [])].
+
+Example C11_pb_nonvacuous :
+  is_data ex_value = true /\
+  to_pb ex_value = PbHash [(PbStr [107%N], PbArr [PbInt 9223372036854775807; PbFloat 4607182418800017408; PbUndef; PbArr []]);
+                           (PbInt 3, PbHash [])] /\
+  from_pb (to_pb ex_value) = Ok ex_value /\
+  pc_run (events_of ex_value) = Ok (to_pb ex_value) /\
+  (let* e := consume_pb (to_pb ex_value) in collect e) = Ok ex_value.
+Proof. repeat split; vm_compute; reflexivity. Qed.
+
+(* an event tree with a reference and a Binary through the protoConsumer and back; a Binary is not Data and
+   FromPBData has no arm for it *)
+Example C11_pb_stream_nonvacuous :
+  let e := EArr [EAdd (SBin [0%N; 255%N]); ERef 0; EHash [EArr []; EAdd (SFloat 0)]] in
+  even_hashes e = true /\ no_other e = true /\
+  pc_run e = Ok (PbArr [PbBin [0%N; 255%N]; PbRef 0; PbHash [(PbArr [], PbFloat 0)]]) /\
+  (let* d := pc_run e in consume_pb d) = Ok e /\
+  from_pb (to_pb (VBin [1%N])) = Ok VUndef.
+Proof. repeat split; vm_compute; reflexivity. Qed.
